@@ -10,6 +10,7 @@ import (
 	"fmt"
 	"math/big"
 	"math/bits"
+	"os"
 	"runtime"
 	"strings"
 	"sync"
@@ -31,6 +32,8 @@ const (
 	findDDD        = "rrsig-ddd-letters"      // letters written as \DDD are not folded / not recognised as letters
 	findMixedOwner = "rrsig-mixed-case-rrset" // records of one RRset spelling the owner in different letter case
 	findTag0       = "rrsig-keytag-zero"      // Sign refuses a key whose tag is 0
+	// round 9
+	findStarLabel = "rrsig-star-prefixed-label" // Sign takes every owner whose text begins with "*" for a wildcard
 )
 
 var algs = []uint8{ref.AlgRSASHA1, ref.AlgRSASHA1NSEC3, ref.AlgRSASHA256, ref.AlgRSASHA512, ref.AlgECDSAP256, ref.AlgECDSAP384, ref.AlgEd25519}
@@ -63,6 +66,9 @@ type sigCase struct {
 	Spell      spelling // letters of the names handed to the library written as \DDD escapes (per site a position mask)
 	MixedOwner bool     // set by the generator: records may spell the owner in different letter case, and the
 	// invariance "letter case of the owner changed in ONE record" is evaluated
+	// round 9
+	StarLabel bool // set by the generator: the owner lies below the zone and its first label merely STARTS with "*" ("*foo"):
+	// asserted that the RRSIG Sign makes for it is not good for the same records under another owner
 }
 
 func privFor(alg uint8, slot int, seed []byte) (crypto.PrivateKey, error) {
@@ -76,6 +82,13 @@ func privFor(alg uint8, slot int, seed []byte) (crypto.PrivateKey, error) {
 	}
 	return nil, fmt.Errorf("algorithm %d not in the domain", alg)
 }
+
+// exhaustive: the thorough tier enumerates every signature bit of long signatures and every position
+// of the foreign record - but not inside the coverage-guided layer (pbt.FuzzGen; the driver sets
+// VERIF_FUZZ): its 16 workers give one input 10 s of wall time each, which a case with a 4096-bit RSA
+// key exceeds on a loaded machine ("fuzzing process hung or terminated unexpectedly"). There the
+// sampled forms of the quick tier are used; the rapid runs of the thorough tier keep the full ones.
+func exhaustive() bool { return pbt.Thorough() && os.Getenv("VERIF_FUZZ") == "" }
 
 func isWild(n wm.Name) bool { return len(n) > 0 && string(n[0]) == "*" }
 
@@ -312,7 +325,7 @@ func checkSign(c sigCase) (err error) {
 		fmt.Sprintf("wildcard=%v", wild), fmt.Sprintf("rdata-names=%v", names), fmt.Sprintf("lowertype=%v", lowerTypes[typ]), fmt.Sprintf("rootzone=%v", len(c.Signer) == 0),
 		fmt.Sprintf("origttl-explicit=%v", c.OrigTTL != 0), fmt.Sprintf("rdata-embeds-another-record=%v", c.EmbeddedImage),
 		fmt.Sprintf("keytag-zero=%v", tag == 0), fmt.Sprintf("owner-case-differs-between-records=%v", mixed), fmt.Sprintf("letters-as-ddd=%v", c.Spell.any()),
-		fmt.Sprintf("keytag-fold-carries=%v", tagFoldCarries(base.keyRdata()))}
+		fmt.Sprintf("keytag-fold-carries=%v", tagFoldCarries(base.keyRdata())), fmt.Sprintf("first-label-starts-with-star-without-being-the-wildcard=%v", c.StarLabel)}
 	{
 		// round 9: the backslash octet followed by octets that make the pair read like an escape
 		look, code := hasLookalike(owner) || hasLookalike(c.SignerAs), hasBackslashLetterCode(owner) || hasBackslashLetterCode(c.SignerAs)
@@ -435,6 +448,28 @@ func checkSign(c sigCase) (err error) {
 		}
 		return pbt.Errf("RRSIG.Verify of the signature just made by Sign failed: %v (owners as handed over %q, signer %s, key owner %s, key tag %d, type %s alg %d)",
 			verr, on, sig.SignerName, signed.libKey().Hdr.Name, tag, typeName(typ), c.Alg)
+	}
+
+	// round 9 (remark 1 of the breakers): "any change to ... owner ... makes it fail", the one exemption
+	// being a "wildcard expansion of the owner consistent with the Labels field". An owner whose first
+	// label merely starts with "*" is not a wildcard name (RFC 4592 2.1.1: the leftmost label IS "*"),
+	// so nothing is an expansion of it: the RRSIG that Sign made for it must not verify for the same
+	// records under another owner. It does when Sign leaves that label out of the Labels count (RFC
+	// 4034 3.1.3 excludes only the root and the wildcard label): the signed octets then name
+	// "*.<rightmost Labels labels>" and the owner handed to Sign occurs nowhere in them.
+	if c.StarLabel && !wild && int(sig.Labels) < len(owner) && int(sig.Labels) >= len(c.Signer) {
+		other := append(wm.Name{[]byte("zz")}, owner[len(owner)-int(sig.Labels):].Clone()...)
+		if other.Valid() && !equalFold(other, owner) {
+			v := signed.clone()
+			for i := range v.Set {
+				v.Set[i].Name = other.Clone()
+			}
+			v.SigOwner = other.Clone()
+			if v.libVerify() == nil {
+				return pbt.Errf("the RRSIG that Sign made for the RRset of %s (%d labels, not a wildcard name: its first label is %q) carries Labels %d and verifies, unchanged but for its owner field, for the same records owned by %s - the signed octets name the wildcard *.%s, not the owner (type %s alg %d)",
+					wm.EscName(owner), len(owner), owner[0], sig.Labels, wm.EscName(other), wm.EscName(owner[len(owner)-int(sig.Labels):]), typeName(typ), c.Alg)
+			}
+		}
 	}
 
 	// a signer that fails: Sign must say so - an RRSIG that Sign reports as made has to verify
@@ -946,7 +981,7 @@ func checkSign(c sigCase) (err error) {
 	}
 	// round 8: one record that does not belong to the RRset (other owner / class / type), in every
 	// position, in the world Sign made and in the wildcard-expanded worlds
-	mixedAlts := mixedSetAlterations(mixedBases, otherType, c.Dup, pbt.Thorough())
+	mixedAlts := mixedSetAlterations(mixedBases, otherType, c.Dup, exhaustive())
 	for _, m := range mixedAlts {
 		alts = append(alts, variant{m.name, m.w})
 	}
@@ -970,7 +1005,7 @@ func checkSign(c sigCase) (err error) {
 	// single-bit flips of the signature (all bits; sampled for P-384 in the quick tier)
 	key := signed.libKey()
 	var sbits []int
-	if (c.Alg == ref.AlgECDSAP384 || len(raw) > 128) && !pbt.Thorough() {
+	if (c.Alg == ref.AlgECDSAP384 || len(raw) > 128) && !exhaustive() {
 		for _, s := range c.SigSample {
 			sbits = append(sbits, ((s%(len(raw)*8))+len(raw)*8)%(len(raw)*8))
 		}
@@ -1128,6 +1163,16 @@ func genSign(t *rapid.T) sigCase {
 		pbt.Excluded(findRootWild)
 		owner = wm.Name{[]byte("w")}
 		wild = false
+	}
+	if len(owner) > len(zone) && len(owner[0]) > 1 && owner[0][0] == '*' {
+		// round 9: the class of finding rrsig-star-prefixed-label - an owner below the zone apex whose
+		// first label starts with "*" without being the wildcard label
+		if pbt.Known(findStarLabel) {
+			pbt.Excluded(findStarLabel)
+			owner[0][0] = 'x'
+		} else {
+			c.StarLabel = true
+		}
 	}
 	c.Signer = zone
 	c.SignerAs, c.KeyOwner = zone.Clone(), zone.Clone()
@@ -1418,6 +1463,13 @@ func init() {
 		c := base
 		c.Set = []wm.Rec{a(name("A", "example", "org"), 192, 0, 2, 1), a(name("a", "example", "org"), 192, 0, 2, 2)}
 		c.MixedOwner = true
+		return checkSign(c)
+	})
+	// round 9, remark 1: *foo.example.org. is signed as if it were the wildcard *.example.org.
+	pbt.Probe(findStarLabel, func() error {
+		c := base
+		c.Set = []wm.Rec{a(name("*foo", "example", "org"), 192, 0, 2, 1)}
+		c.StarLabel = true
 		return checkSign(c)
 	})
 	// round 7, remark 4: a key whose tag is 0 (Ed25519 keys from the seeds 1, 2, ...: the first one for
